@@ -370,9 +370,37 @@ func TestVfC13(t *testing.T) {
 				dsend("sub", map[string]any{"topic": g.topics[0]})
 				cd = cdSave
 			}
+			// the search topic: set a query, clear it (the DEL character), set another one, search
+			dsend("set", map[string]any{"topic": "fnd", "desc": map[string]any{"public": "alice"}})
+			dsend("set", map[string]any{"topic": "fnd", "desc": map[string]any{"public": "\u2421"}})
+			dsend("set", map[string]any{"topic": "fnd", "desc": map[string]any{"public": "bob"}})
+			dsend("get", map[string]any{"topic": "fnd", "what": "sub"})
+			dsend("set", map[string]any{"topic": "fnd", "desc": map[string]any{"private": "carol"}})
+			dsend("set", map[string]any{"topic": "fnd", "desc": map[string]any{"public": "dave"}})
 			r.Hit("refused_then_served_same_session")
 			e.vfQuiesce()
 		}
+		// a handshake refused for its version leaves the connection without a handshake: whatever follows is out
+		// of sequence and must be answered with an error
+		cx := e.dial("directed-oldver")
+		xsend := func(kind string, body map[string]any) {
+			id := cx.nextID()
+			body["id"] = id
+			msg := map[string]any{kind: body}
+			raw := vfJSON(msg)
+			cx.mu.Lock()
+			cx.sends = append(cx.sends, vfSend{T: e.now(), Id: id, Msg: msg, Raw: raw})
+			cx.mu.Unlock()
+			cx.sendRaw([]byte(raw))
+			sent = append(sent, c13Sent{client: cx, id: id, kind: kind, raw: raw, mustErr: true})
+		}
+		xsend("hi", map[string]any{"ver": "0.15", "ua": "old"})
+		xsend("login", map[string]any{"scheme": "token", "secret": fuzzers[1].tok})
+		xsend("hi", map[string]any{"ver": "0.15", "ua": "old"})
+		xsend("sub", map[string]any{"topic": "me"})
+		xsend("acc", map[string]any{"user": "new", "scheme": "basic", "secret": "b2xkdmVyOm9sZHZlcnBhc3M=", "login": true})
+		r.Hit("out_of_sequence_after_refused_handshake")
+		e.vfQuiesce()
 	}
 	for i := 0; i < ncmd; i++ {
 		// (re)open clients in various states
